@@ -2619,8 +2619,12 @@ class EdgeQLSourceGenerator(codegen.SourceGenerator):
     def visit_DescribeStmt(self, node: qlast.DescribeStmt) -> None:
         self._write_keywords('DESCRIBE ')
         if isinstance(node.object, qlast.DescribeGlobal):
+            if node.object is qlast.DescribeGlobal.DatabaseConfig:
+                self._write_keywords('CURRENT ')
             self.write(node.object.to_edgeql())
         else:
+            if not node.object.itemclass:
+                self._write_keywords('OBJECT ')
             self.visit(node.object)
         if node.language:
             self._write_keywords(' AS ')
